@@ -1,5 +1,5 @@
 From Coq Require Import Extraction ExtrOcamlBasic NArith ZArith List.
-From SV.Dec Require Import Ty Val Parse Text Num Common FieldMap StdBind SonicBind Compile.
+From SV.Dec Require Import Ty Val Parse Text Num Common FieldMap StdBind SonicBind Compile Exec.
 Extraction Language OCaml.
-Separate Extraction sonic_unmarshal std_unmarshal zero lparse parse sonic_lookup std_lookup build get get_ci
+Separate Extraction il_unmarshal sonic_unmarshal std_unmarshal zero lparse parse sonic_lookup std_lookup build get get_ci
   compile in_range utf8_correct f64_of_text f32_of_text f32_via_f64_of_text N.of_nat N.to_nat Z.of_N Z.to_N.
